@@ -99,7 +99,7 @@ func (rn *c12Runner) compare(seq []int, def int, ni int, path string, want ref.V
 		fmt.Printf("  path=%-4s Match(%q) = (%d,%v)  reference: class %s, acceptable rule positions %v : %s\n", path, rn.sp.Names[ni], got, ok, want.Class(len(seq)), ref.Bits(want.Accept), verdict)
 	}
 	if sig != "" {
-		c12Violate(rn.res, path+"/"+sig, desc, rn.sp.Input(seq, def, ni, path), len(seq))
+		c12Violate(rn.res, path+"/"+sig, desc, rn.sp.Input(seq, def, ni, path), ref.Cost(seq))
 	}
 }
 
